@@ -442,8 +442,17 @@ def _emit_fn(unit, repo, rel, scope, name, opts, flags, contract, directives, va
     else:
         ty = sf.text[sig_toks[arrow + 1].start:sig_toks[-1].end]
         sig = head + sf.text[name_tok.end:sig_toks[arrow].start] + "-> (%s: %s)" % (ret_id, ty.strip())
-    if "mutself" in flags:
-        pass
+    for (dk, dopts, pat, rep, tline) in directives:
+        if dk == "SIG":
+            # declared signature edit (e.g. a tuple-pattern parameter spelled as two parameters)
+            if not vacuity:
+                unit.edits.append({"fn": qual, "kind": "sig", "file": rel, "line": info["repo_line"],
+                                   "original": re.sub(r"\s+", " ", sf.text[toks[fn_i].start:sig_toks[-1].end]),
+                                   "replacement": " ".join(dopts) + " " + rep})
+            sig = " ".join(dopts)
+            if vacuity:
+                sig = sig.replace(out_name.replace("__vac", ""), out_name, 1) if out_name.endswith("__vac") else sig
+    directives = [d for d in directives if d[0] != "SIG"]
     unit.segs.append(Seg(sig + "\n", "sig", info))
 
     # ---- contract ------------------------------------------------------------------------
@@ -502,7 +511,7 @@ def _emit_fn(unit, repo, rel, scope, name, opts, flags, contract, directives, va
 
     scaffold = []
     for (dk, dopts, pat, rep, tline) in directives:
-        if dk in ("OUTLINE", "HAVOC", "CLOSURE", "REPLACE"):
+        if dk in ("OUTLINE", "HAVOC", "CLOSURE", "REPLACE", "ITERNAME"):
             hits, n = locate(dk, dopts, pat, tline)
             for h in hits or []:
                 replace[h] = (h + n, rep, dk.lower(), tline)
